@@ -10,6 +10,7 @@ observations.  Arguments that change between evaluations must raise UsageError.
 
 from __future__ import annotations
 
+import ast
 import random
 
 from .. import common
@@ -261,8 +262,130 @@ def run_shard(args):
             want_s, want_t = f"s = snapshot((\"f{i}\", \"s\"))", f"t = snapshot((\"f{i}\", 2))"
             if want_s not in text or want_t not in text:
                 out["violations"].append({"kind": "module-level-site-value-is-not-its-own-aggregate(real session)", "detail": {"file": f"test_m{i}.py", "expected_lines": [want_s, want_t], "got": text[:400], "stdout_tail": r.stdout[-400:]}, "witness": wit, "finding": None})
+    # ---- real sessions: the aggregation forms the statement names, as pytest produces them (parametrised tests,
+    # several tests sharing a module-level snapshot, equally named methods of two classes, a helper in another module)
+    if (2 <= args.shard < 6) if tier == "quick" else True:
+        from .. import session
+
+        for c in range(1 if tier == "quick" else 4):
+            rng = random.Random(f"{args.seed}/{PROP}/constructs/{args.shard}/{c}")
+            files, expected = pytest_constructs_project(rng)
+            proj = session.Project(files, with_vp=False)
+            try:
+                r = session.run_session(proj, ["--inline-snapshot=create"])
+                r2 = session.run_session(proj, ["--inline-snapshot=disable"])
+            finally:
+                proj.close()
+            C["real_sessions"] = C.get("real_sessions", 0) + 2
+            wit = {"files": files, "args": ["--inline-snapshot=create"]}
+            if any(a["kind"] == "sessionfinish_exception" for a in r.audit):
+                out["violations"].append({"kind": "session-end-raised", "detail": {"events": [a for a in r.audit if a["kind"] == "sessionfinish_exception"]}, "witness": wit, "finding": None})
+                continue
+            for fname, wants in expected.items():
+                text = r.after.get(fname, b"").decode()
+                try:
+                    _, calls = program.outer_snapshot_args(text)
+                    got = [eval(ast.get_source_segment(text, cl.args[0]), {}) if cl.args else "<empty>" for cl in calls]
+                except Exception as e:
+                    out["violations"].append({"kind": "rewritten-file-unusable(real session)", "detail": {"file": fname, "error": repr(e), "text": text[:1500]}, "witness": wit, "finding": None})
+                    continue
+                for (label, want, unordered), g in zip(wants, got + ["<missing>"] * len(wants)):
+                    out["evaluations"] += 1
+                    out["signatures"].add(f"real-session/construct/{label}")
+                    C["construct_sites_checked"] = C.get("construct_sites_checked", 0) + 1
+                    ok = (sorted(g) == sorted(want)) if unordered and isinstance(g, list) else (g == want and type(g) is type(want))
+                    if not ok:
+                        out["violations"].append({"kind": "site-value-is-not-its-own-aggregate(real session)", "detail": {"file": fname, "site": label, "expected": repr(want), "got": repr(g), "text": text[:1800]}, "witness": wit, "finding": None})
+            if r2.exit != 0:
+                out["violations"].append({"kind": "disabled-session-fails-after-create(real session)", "detail": {"exit": r2.exit, "outcomes": {k: v for k, v in r2.outcomes.items() if v != "passed"}, "stdout_tail": r2.stdout[-600:]}, "witness": wit, "finding": None})
     out["signatures"] = sorted(out["signatures"])
     return out
+
+
+def pytest_constructs_project(rng):
+    """returns (files, {file: [(label, expected value, unordered?) in textual order of the snapshot() calls]})"""
+    ns = rng.sample(range(1, 60), 3)
+    ks = rng.sample(["a", "b", "c", "d"], 2)
+    vs = rng.sample(range(100, 200), 2)
+    sh = rng.sample(range(10, 50), 3)
+    a, b = rng.sample(["A", "B", "alpha", "beta", "x y"], 2)
+    rep = rng.randint(0, 9)
+    h1, h2 = rng.sample(range(300, 400), 2)
+    helper = "from inline_snapshot import snapshot\n\n\ndef upper_bound(x):\n    return x <= snapshot()\n\n\ndef same(x, s):\n    return x == s\n"
+    t1 = f"""import pytest
+from inline_snapshot import snapshot
+from helper_mod import same, upper_bound
+
+shared = snapshot()
+
+
+@pytest.mark.parametrize("n", {ns!r})
+def test_param_le(n):
+    assert n <= snapshot()
+
+
+@pytest.mark.parametrize("n", {ns!r})
+def test_param_in(n):
+    assert n in snapshot()
+
+
+@pytest.mark.parametrize("k,v", {list(zip(ks, vs))!r})
+def test_param_getitem(k, v):
+    assert snapshot()[k] == v
+
+
+@pytest.mark.parametrize("x", {sh!r})
+def test_shared(x):
+    assert x >= shared
+
+
+def test_shared_again():
+    assert {max(sh) + 5} >= shared
+
+
+class TestA:
+    def test_value(self):
+        assert {a!r} == snapshot()
+
+
+class TestB:
+    def test_value(self):
+        assert {b!r} == snapshot()
+
+
+@pytest.fixture
+def val(request):
+    return request.param
+
+
+@pytest.mark.parametrize("val", [{rep}, {rep}], indirect=True)
+def test_same_value_twice(val):
+    assert val == snapshot()
+
+
+def test_helper_first():
+    assert upper_bound({h1})
+    assert same({h1}, snapshot())
+"""
+    t2 = f"""from inline_snapshot import snapshot
+from helper_mod import same, upper_bound
+
+
+class TestA:
+    def test_value(self):
+        assert {b!r} == snapshot()
+
+
+def test_helper_second():
+    assert upper_bound({h2})
+    assert same({h2}, snapshot())
+"""
+    expected = {
+        "test_one.py": [("module-level-shared-by-tests", min(sh), False), ("parametrised-le", max(ns), False), ("parametrised-in", list(ns), True), ("parametrised-getitem", dict(zip(ks, vs)), False), ("class-A-method", a, False), ("class-B-same-method-name", b, False), ("indirect-param-same-value", rep, False), ("helper-argument", h1, False)],
+        "test_two.py": [("other-file-same-class-and-method-name", b, False), ("helper-argument-2", h2, False)],
+        "helper_mod.py": [("helper-shared-by-two-files", max(h1, h2), False)],
+    }
+    return {"test_one.py": t1, "test_two.py": t2, "helper_mod.py": helper}, expected
 
 
 def run_project(files, F):
